@@ -582,6 +582,29 @@ func labelOffenders(o *pbt.Rec, offs []offender) (deep bool) {
 		n++
 		lab("off:kind:" + f.kind)
 		lab("off:what:" + strings.SplitN(f.what, "<-", 2)[0])
+		if f.what == "typename-not-a-possible-type" || f.what == "typename-field-invalid-name" {
+			where := "object"
+			tn := f.val
+			if f.what == "typename-field-invalid-name" {
+				where = "selected-field"
+			} else {
+				tn = f.val.get("__typename")
+				if !f.inAbsSelf {
+					lab("off:typename:concrete-position")
+				}
+			}
+			if tn != nil && tn.k == jStr {
+				switch {
+				case tn.s == "":
+					lab("off:typename:empty-string")
+					if where == "object" && !f.inAbsSelf {
+						lab("off:typename:empty-string:concrete-object")
+					}
+				case strings.TrimSpace(tn.s) == "" || strings.ContainsAny(tn.s, " \x00"):
+					lab("off:typename:blank-or-padded:" + where)
+				}
+			}
+		}
 		if f.cell != "" && f.cell != "typename" {
 			lab("cell:" + f.cell)
 		}
